@@ -4,7 +4,7 @@ import ast
 import re
 
 from ..core import AnalysisError
-from ..pyfront import unparse, try_const, path_conditions, norm_key
+from ..pyfront import unparse, ws, try_const, path_conditions, norm_key
 from .. import templ, predabs, facts
 
 ENC = {
@@ -185,37 +185,61 @@ def f9_arithmetic(ctx, L, module, quals, rule='F9.marker-arithmetic'):
     return n
 
 
+UNION_ENCODE_REF = """
+    discpad = %s
+
+    def gen_case(member):
+        return ('case {0}::discriminator_{1}: do_encode<E>(pos, x.{1}); break;\\n'
+                .format(node.name, member.name))
+
+    return (
+            'pos = do_encode<E>(pos, x.discriminator);\\n' +
+            (discpad and 'pos = pos + {0};\\n'.format(discpad) or '') +
+            'switch (x.discriminator)\\n' +
+            '{\\n' +
+            ''.join('    ' + gen_case(m) for m in node.members) +
+            '}\\n' +
+            'pos = pos + {0};\\n'.format(node.byte_size - DISC_SIZE - discpad)
+    )
+"""
+
+UNION_DECODE_REF = """
+    discpad = %s
+
+    def gen_case(member):
+        return ('case {0}::discriminator_{1}: if (!do_decode_in_place<E>(x.{1}, pos, end)) return false; break;\\n'
+                .format(node.name, member.name))
+
+    return (
+            'if (!do_decode<E>(x.discriminator, pos, end)) return false;\\n' +
+            (discpad and 'if (!do_decode_advance({0}, pos, end)) return false;\\n'.format(discpad) or '') +
+            'switch (x.discriminator)\\n' +
+            '{\\n' +
+            ''.join('    ' + gen_case(m) for m in node.members) +
+            '    ' + 'default: return false;\\n' +
+            '}\\n' +
+            'return do_decode_advance({0}, pos, end);\\n'.format(node.byte_size - DISC_SIZE - discpad)
+    )
+"""
+
+DISCPAD_FORMS = ('node.alignment > DISC_SIZE and (node.alignment - DISC_SIZE) or 0', 'node.alignment >= DISC_SIZE and node.alignment - DISC_SIZE or 0',
+                 'max(node.alignment - DISC_SIZE, 0)', 'node.alignment - DISC_SIZE')
+
+
 def union_templates(ctx, L):
-    """generate_union_encode / _decode: discriminator, discpad (alignment - DISC_SIZE when alignment > DISC_SIZE),
-    arm in place, tail = byte_size - DISC_SIZE - discpad."""
+    """generate_union_encode / _decode mean what the reference generators above mean (compared in normal form, E1b/E1c):
+    discriminator; a gap of discpad = alignment - DISC_SIZE bytes emitted only when non-zero; the arm coded in place; the tail
+    byte_size - DISC_SIZE - discpad. Equivalent spellings of discpad (DISC_SIZE is the minimum union alignment) are accepted."""
+    from . import shared_py as P_
     m = ctx.py.mod('prophyc.generators.cpp_full')
-    for q, first, pad, case, tail in (
-            ('generate_union_encode', 'pos = do_encode<E>(pos, x.discriminator);\n', ('pos = pos + {0};\n', ['discpad']),
-             'case {0}::discriminator_{1}: do_encode<E>(pos, x.{1}); break;\n', ('pos = pos + {0};\n', ['node.byte_size - DISC_SIZE - discpad'])),
-            ('generate_union_decode', 'if (!do_decode<E>(x.discriminator, pos, end)) return false;\n',
-             ('if (!do_decode_advance({0}, pos, end)) return false;\n', ['discpad']),
-             'case {0}::discriminator_{1}: if (!do_decode_in_place<E>(x.{1}, pos, end)) return false; break;\n',
-             ('return do_decode_advance({0}, pos, end);\n', ['node.byte_size - DISC_SIZE - discpad']))):
+    for q, ref in (('generate_union_encode', UNION_ENCODE_REF), ('generate_union_decode', UNION_DECODE_REF)):
         f = m.func(q)
-        dp = [s for s in f.node.body if isinstance(s, ast.Assign) and unparse(s.targets[0]) == 'discpad']
-        from . import shared_py as P_
-        ok = len(dp) == 1 and any(P_.sem_is(f, dp[0].value, alt, ['node']) for alt in (
-            'node.alignment > DISC_SIZE and (node.alignment - DISC_SIZE) or 0', 'node.alignment >= DISC_SIZE and node.alignment - DISC_SIZE or 0',
-            'max(node.alignment - DISC_SIZE, 0)', 'max(0, node.alignment - DISC_SIZE)', 'node.alignment - DISC_SIZE',
-            'node.alignment - DISC_SIZE if node.alignment > DISC_SIZE else 0'))
-        L.check(ok, 'F1gen.union-steps', q + '|discpad', f.site(), 'discriminator gap must be alignment - DISC_SIZE (0 when the '
-                'union alignment is 4)', unparse(dp[0]) if dp else '')
-        em = emits_of(f.node.body)
-        texts = [t for t, a in em]
-        L.check(first in texts, 'F1gen.union-steps', q + '|disc', f.site(), 'discriminator first', str(texts[:3]))
-        L.check(pad in em, 'F1gen.union-steps', q + '|gap', f.site(), 'gap of discpad bytes after the discriminator', '')
-        L.check(any(t == case for t in texts), 'F1gen.union-steps', q + '|arm', f.site(), 'the discriminated arm is coded in place '
-                '(cursor not advanced by the arm)', str([t for t in texts if 'case' in t]))
-        L.check(tail in em, 'F1gen.union-steps', q + '|tail', f.site(),
-                'after the arm the cursor advances by byte_size - DISC_SIZE - discpad (the rest of the fixed slot)', '')
-        src = re.sub(r'\s+', '', unparse(f.node))
-        L.check("(discpadand" in src, 'F1gen.union-steps', q + '|gap-conditional', f.site(), 'the gap statement is emitted only '
-                'when discpad is non-zero', '')
+        ok = P_.body_is(f, *[ref % d for d in DISCPAD_FORMS], params=['node'])
+        L.check(ok, 'F1gen.union-steps', q + '|steps', f.site(),
+                'the union %s generator must emit: discriminator; gap of (alignment - DISC_SIZE) bytes, only when that is non-zero; the '
+                'discriminated arm in place inside a switch over all arms%s; then the rest of the fixed slot (byte_size - DISC_SIZE - gap); '
+                'it means: %s' % ('encode' if 'encode' in q else 'decode', '' if 'encode' in q else ' with `default: return false`', P_.sem_body(f)[:600]),
+                ws(unparse(f.node))[:300])
 
 
 def f4_tables(ctx, L):
